@@ -250,7 +250,11 @@ def run(ctx):
     process(ctx, st, cases, nshards, "main")
     # (g) JSON-import copies: TLC cuts the emitted hello of every id into the field map ImportTLSClientHello documents
     names = list(st.firsts.keys())
-    maps = import_maps(ctx, [st.firsts[k] for k in names])
+    rows = [st.firsts[k] for k in names]
+    for c in caps:                       # ... and the crafted captures (record header stripped)
+        names.append("cap:" + "/".join(str(x) for x in c["name"]))
+        rows.append(c["raw"][5:])
+    maps = import_maps(ctx, rows)
     if len(maps) < len(names) // 2:
         raise vlib.Machinery("C02_Import produced %d maps for %d hellos" % (len(maps), len(names)))
     icases = []
